@@ -241,24 +241,30 @@ package streamfilter
 // fdecl: declared URL patterns, fval[p]: the node stored for pattern p, fbest(D, u): the pattern the trie's lookup picks for
 // u among D ("" when none). The lookup's reported NormalizedURL is NOT assumed to be that pattern (for a bare host found
 // through host/* it is not) - which is exactly why AddFlow must not rely on it alone.
+// ukey(u): the form under which the trie stores a declared URL (leading/trailing separators ignored); the model is keyed by it
+//@ ghost func ukey(u string) string = strings.Trim(u, "./")
 //@ ghost var fdecl gmap[string]bool
 //@ ghost var fval gmap[string]*FilterNode
 //@ ghost func fbest(d gmap[string]bool, u string) string
 //@ axiom[fbest-is-declared] forall(d, "gmap[string]bool", forall(u, string, fbest(d, u) != "" ==> d[fbest(d, u)]))
+// (trusted link to the trie, supported by lookupNode#exact-node-wins / #declared-wildcard-pattern-finds-its-own-node and by the
+// bounded stand-in of props/C03.json) the look-up of a declared pattern finds that pattern's own node and reports its stored form
 //@ extern URLTree.Lookup
 //@   modifies nothing
-//@   ensures[none] fbest(fdecl, url) == "" ==> !result.Match && result.Value == nil
-//@   ensures[the-matched-node] fbest(fdecl, url) != "" ==> result.Match && result.Value == fval[fbest(fdecl, url)]
+//@   ensures[none] fbest(fdecl, ukey(url)) == "" ==> !result.Match && result.Value == nil
+//@   ensures[the-matched-node] fbest(fdecl, ukey(url)) != "" ==> result.Match && result.Value == fval[fbest(fdecl, ukey(url))]
+//@   ensures[declared-pattern-finds-itself] fdecl[ukey(url)] ==> fbest(fdecl, ukey(url)) == ukey(url)
+//@   ensures[own-node-reports-its-stored-form] fbest(fdecl, ukey(url)) == ukey(url) ==> result.NormalizedURL == ukey(url)
 //@ extern URLTree.InsertDeclaredURL
 //@   modifies fdecl, fval
-//@   ensures[stored] result == nil ==> forall(p, string, fdecl[p] <==> (old(fdecl)[p] || p == url)) && fval[url] == value && forall(p, string, p != url ==> fval[p] == old(fval)[p])
+//@   ensures[stored] result == nil ==> forall(p, string, fdecl[p] <==> (old(fdecl)[p] || p == ukey(url))) && fval[ukey(url)] == value && forall(p, string, p != ukey(url) ==> fval[p] == old(fval)[p])
 //@   ensures[unchanged-on-error] result != nil ==> fdecl == old(fdecl) && fval == old(fval)
 //@ pure FlowI.GetType
 //@ extern newFilterRequirements
 //@   modifies nothing
 // every node holds flows declared on its own pattern only, and holds at least one
 //@ ghost func urlOf(flow internaltypes.FlowI) string = flt(flow).URL
-//@ ghost func nodeOn(n *FilterNode, p string) bool = n != nil && allocated(n) && len(n.userFlows) + len(n.systemFlowStart) + len(n.systemFlowEnd) > 0 && forall(j, 0, len(n.userFlows), fltOK(n.userFlows[j]) && urlOf(n.userFlows[j]) == p) && forall(j, 0, len(n.systemFlowStart), fltOK(n.systemFlowStart[j]) && urlOf(n.systemFlowStart[j]) == p) && forall(j, 0, len(n.systemFlowEnd), fltOK(n.systemFlowEnd[j]) && urlOf(n.systemFlowEnd[j]) == p)
+//@ ghost func nodeOn(n *FilterNode, p string) bool = n != nil && allocated(n) && len(n.userFlows) + len(n.systemFlowStart) + len(n.systemFlowEnd) > 0 && forall(j, 0, len(n.userFlows), fltOK(n.userFlows[j]) && ukey(urlOf(n.userFlows[j])) == p) && forall(j, 0, len(n.systemFlowStart), fltOK(n.systemFlowStart[j]) && ukey(urlOf(n.systemFlowStart[j])) == p) && forall(j, 0, len(n.systemFlowEnd), fltOK(n.systemFlowEnd[j]) && ukey(urlOf(n.systemFlowEnd[j])) == p)
 //@ ghost func treeOwn() bool = forall(p, string, fdecl[p] ==> nodeOn(fval[p], p))
 //@ ghost func treeDistinct() bool = forall(p, string, forall(q, string, fdecl[p] && fdecl[q] && p != q ==> fval[p] != fval[q]))
 
@@ -266,15 +272,26 @@ package streamfilter
 //@   prop C03
 //@   requires node != nil && forall(j, 0, len(node.userFlows), fltOK(node.userFlows[j])) && forall(j, 0, len(node.systemFlowStart), fltOK(node.systemFlowStart[j])) && forall(j, 0, len(node.systemFlowEnd), fltOK(node.systemFlowEnd[j]))
 //@   modifies nothing
-//@   ensures[some-flow-on-this-url] result ==> (len(node.userFlows) > 0 && urlOf(node.userFlows[0]) == url) || (len(node.systemFlowStart) > 0 && urlOf(node.systemFlowStart[0]) == url) || (len(node.systemFlowEnd) > 0 && urlOf(node.systemFlowEnd[0]) == url)
+//@   loop 1 modifies nothing
+//@   loop 1 invariant[earlier-lists-empty] (idx1 >= 1 ==> len(node.userFlows) == 0) && (idx1 >= 2 ==> len(node.systemFlowStart) == 0) && (idx1 >= 3 ==> len(node.systemFlowEnd) == 0)
+//@   ensures[yes-for-the-nodes-own-url] ((len(node.userFlows) > 0 && ukey(urlOf(node.userFlows[0])) == ukey(url)) || (len(node.userFlows) == 0 && len(node.systemFlowStart) > 0 && ukey(urlOf(node.systemFlowStart[0])) == ukey(url)) || (len(node.userFlows) == 0 && len(node.systemFlowStart) == 0 && len(node.systemFlowEnd) > 0 && ukey(urlOf(node.systemFlowEnd[0])) == ukey(url))) ==> result
+//@   ensures[some-flow-on-this-url] result ==> (len(node.userFlows) > 0 && ukey(urlOf(node.userFlows[0])) == ukey(url)) || (len(node.systemFlowStart) > 0 && ukey(urlOf(node.systemFlowStart[0])) == ukey(url)) || (len(node.systemFlowEnd) > 0 && ukey(urlOf(node.systemFlowEnd[0])) == ukey(url))
 
 // A flow joins the node of its own URL pattern, or gets a node of its own: afterwards every node still holds only flows
 // declared on the node's pattern, whatever was loaded before - so what a node answers does not depend on the load order.
+// gIns: the flow got a node of its own (InsertDeclaredURL was reached)
+//@ ghost var gIns bool
 //@ func (*FilterTree).AddFlow
 //@   prop C03
+//@   on entry do gIns = false
+//@   on call InsertDeclaredURL 1 before do gIns = true
 //@   requires f != nil && f.tree != nil && fltOK(flow) && treeOwn() && treeDistinct()
 //@   requires flow.GetType() == internaltypes.UserFlow || flow.GetType() == internaltypes.SystemFlowStart || flow.GetType() == internaltypes.SystemFlowEnd
-//@   modifies fdecl, fval, allof(FilterNode.userFlows), allof(FilterNode.systemFlowStart), allof(FilterNode.systemFlowEnd)
+//@   requires[url-not-empty] ukey(flt(flow).URL) != ""
+//@   modifies gIns, fdecl, fval, allof(FilterNode.userFlows), allof(FilterNode.systemFlowStart), allof(FilterNode.systemFlowEnd)
 //@   allocates FilterNode
 //@   ensures[joins-only-its-own-url] result == nil ==> treeOwn()
 //@   ensures[no-shared-node] result == nil ==> treeDistinct()
+//@   ensures[a-declared-pattern-is-joined-never-stored-again] old(fdecl)[ukey(flt(flow).URL)] ==> !gIns
+//@   ensures[no-node-replaced] result == nil ==> forall(p, string, old(fdecl)[p] ==> fdecl[p] && fval[p] == old(fval)[p])
+//@   ensures[earlier-flows-kept] forall(n, *FilterNode, allocated_at_entry(n) ==> len(n.userFlows) >= old(len(n.userFlows)) && forall(j, 0, old(len(n.userFlows)), n.userFlows[j] == old(n.userFlows)[j]) && len(n.systemFlowStart) >= old(len(n.systemFlowStart)) && forall(j, 0, old(len(n.systemFlowStart)), n.systemFlowStart[j] == old(n.systemFlowStart)[j]) && len(n.systemFlowEnd) >= old(len(n.systemFlowEnd)) && forall(j, 0, old(len(n.systemFlowEnd)), n.systemFlowEnd[j] == old(n.systemFlowEnd)[j]))
